@@ -132,20 +132,21 @@ def h5_value(cfg, m, t, im):
     return 0.5 + 0.01 * cfg + 1.7 * m + 0.13 * t + (50.0 if im else 0.0) + 0.0001 * ((cfg + 2 * t + m) % 5)
 
 
-def write_hadrons(path, stem, cfgs, T):
+def write_hadrons(path, stem, cfgs, T, order=None):
+    """order: which gamma combination (numbered m = len(GAMMAS) * i_snk + i_src) sits in group meson_<position>; default identity."""
     import h5py
     os.makedirs(path, exist_ok=True)
+    n = len(GAMMAS)
+    order = list(range(n * n)) if order is None else list(order)
     for c in cfgs:
         with h5py.File(os.path.join(path, '%s.%d.h5' % (stem, c)), 'w') as f:
             g = f.create_group('meson')
-            m = 0
-            for a in GAMMAS:
-                for b in GAMMAS:
-                    sg = g.create_group('meson_%d' % m)
-                    dt = np.dtype([('re', '<f8'), ('im', '<f8')])
-                    arr = np.array([(h5_value(c, m, t, 0), h5_value(c, m, t, 1)) for t in range(T)], dtype=dt)
-                    sg.create_dataset('corr', data=arr)
-                    sg.attrs['gamma_snk'] = np.array([a.encode()])
-                    sg.attrs['gamma_src'] = np.array([b.encode()])
-                    sg.attrs['source'] = np.array([b'wall'])
-                    m += 1
+            for pos, m in enumerate(order):
+                a, b = GAMMAS[m // n], GAMMAS[m % n]
+                sg = g.create_group('meson_%d' % pos)
+                dt = np.dtype([('re', '<f8'), ('im', '<f8')])
+                arr = np.array([(h5_value(c, m, t, 0), h5_value(c, m, t, 1)) for t in range(T)], dtype=dt)
+                sg.create_dataset('corr', data=arr)
+                sg.attrs['gamma_snk'] = np.array([a.encode()])
+                sg.attrs['gamma_src'] = np.array([b.encode()])
+                sg.attrs['source'] = np.array([b'wall'])
